@@ -58,10 +58,11 @@ class Chooser:
 
 
 def default_choice(runnable, cur):
-    """The sequential reference schedule: keep running the current thread, else lowest id."""
-    if cur is not None and cur in runnable:
-        return cur
-    return runnable[0]
+    """The strictly sequential reference schedule: always run the most downstream runnable thread
+    (highest id = most recently created: writer before compressor before producer; a pool worker
+    before its submitter).  Every item then travels the whole pipeline before the next one is
+    produced, and every join finds its queue already drained."""
+    return runnable[-1]
 
 
 class SeqChooser(Chooser):
@@ -145,7 +146,10 @@ class ReplayChooser(Chooser):
                 if t.id == want:
                     return t
             self.misses += 1
-        return default_choice(runnable, cur)
+        # unrecorded / minimised-away position: stay on the current thread, else most downstream
+        if cur is not None and cur in runnable:
+            return cur
+        return runnable[-1]
 
 
 def make_chooser(policy, rng, est_steps=60):
@@ -169,7 +173,7 @@ POLICIES = ['random', 'random', 'sticky0.5', 'sticky0.9', 'pct1', 'pct2', 'pct3'
 
 class _TState:
     __slots__ = ('id', 'name', 'sem', 'pred', 'pending', 'state', 'real', 'deadline', 'timed_out',
-                 'kill', 'ident', 'daemon', 'is_main')
+                 'kill', 'ident', 'daemon', 'is_main', 'seen_progress')
 
     def __init__(self, tid, name):
         self.id = tid
@@ -185,6 +189,7 @@ class _TState:
         self.ident = None
         self.daemon = False
         self.is_main = False
+        self.seen_progress = 0
 
     def __repr__(self):
         return f'<T{self.id} {self.name} {self.state} {self.pending}>'
@@ -215,6 +220,7 @@ class Scheduler:
         self.name_counts = {}
         self.max_live = 1
         self.harness_error = None
+        self.progress = 0
         main = _TState(0, main_name)
         main.state = 'running'
         main.is_main = True
@@ -269,6 +275,7 @@ class Scheduler:
         me.pending = kind
         me.pred = pred
         me.timed_out = False
+        me.seen_progress = self.progress
         me.deadline = (self.clock + timeout) if timeout is not None else None
         self._switch(me)
         me.pred = None
@@ -279,6 +286,9 @@ class Scheduler:
         return not me.timed_out
 
     def _runnable(self):
+        """Threads whose pending operation may proceed now.  A thread in a timed wait is always a
+        candidate: how much real time the others' computation takes is unconstrained, so its timer
+        may fire at any decision point (it then proceeds as 'timed out')."""
         out = []
         for t in self.threads:
             if t.state == 'done':
@@ -286,22 +296,21 @@ class Scheduler:
             p = t.pred
             if p is None or p():
                 out.append(t)
+            elif t.deadline is not None and self.progress > t.seen_progress:
+                # fairness: between two expiries of the same thread's timers somebody else has
+                # taken a real step, so a polling loop cannot starve the threads it polls
+                out.append(t)
+        if not out:
+            waiting = [t for t in self.threads if t.state != 'done' and t.deadline is not None]
+            if waiting:
+                out.append(min(waiting, key=lambda t: (t.deadline, t.id)))
         return out
 
     def _pick(self, me):
         """Returns the thread to run next, or raises/arranges an abort."""
         runnable = self._runnable()
         if not runnable:
-            waiting = [t for t in self.threads if t.state != 'done' and t.deadline is not None]
-            if waiting:
-                t = min(waiting, key=lambda t: (t.deadline, t.id))
-                self.clock = max(self.clock, t.deadline)
-                t.timed_out = True
-                t.pred = None
-                runnable = [t]
-                self.count('timeout_fired')
-            else:
-                return self._deliver_abort(me, SimDeadlock)
+            return self._deliver_abort(me, SimDeadlock)
         self.steps += 1
         if self.steps > self.step_cap:
             return self._deliver_abort(me, SimStepCap)
@@ -309,6 +318,12 @@ class Scheduler:
         if live > self.max_live:
             self.max_live = live
         chosen = self.chooser.choose(self, runnable, me if (me is not None and me.state != 'done') else None)
+        if chosen.deadline is not None and chosen.pred is not None and not chosen.pred():
+            self.clock = max(self.clock, chosen.deadline)
+            chosen.timed_out = True
+            self.count('timeout_fired')
+        else:
+            self.progress += 1
         self.trace.append(chosen.id)
         self.nrunnable.append(len(runnable))
         return chosen
